@@ -1102,5 +1102,33 @@ pub fn gen_zoo(rng: &mut Rng, n: usize) -> String {
         s.push_str(*rng.pick(ZOO));
         s.push('\n');
     }
+    // optional chains and calls whose base or callee object is a literal of every kind, followed by a
+    // configured method (side stream: the choices above stay as they were)
+    let mut side = rng.side(0x200);
+    if side.chance(1, 2) {
+        for _ in 0..side.range(1, 4) {
+            s.push_str(*side.pick(ZOO_LITERAL_BASES));
+            s.push('\n');
+        }
+    }
     s
 }
+
+pub const ZOO_LITERAL_BASES: &[&str] = &[
+    "function q1(a, x, y) { const r = 'abc'.foo?.(y).concat(x); return r; }",
+    "function q2(s, rest) { const m = /x+/.exec?.(s).concat(rest); return m; }",
+    "function q3(x) { return 1..toFixed?.(2).concat(x); }",
+    "function q4(x) { return `t`.at?.(0).trim().concat(x); }",
+    "function q5(x) { return null?.foo(x).trim(); }",
+    "function q6(x) { return true.toString?.().concat(x) + x; }",
+    "function q7(x) { return 10n.toString?.().trim(); }",
+    "function q8(x, y) { return ('a' + x).big?.().concat(y); }",
+    "function q9(x) { return [].concat?.(x).join('').trim(); }",
+    "function q10(x) { return ({}).k?.(x).substring(1); }",
+    "function q11(x) { return this?.m?.(x).concat(x); }",
+    "function q12(x) { return 'abc'?.['con' + 'cat']?.(x).trim(); }",
+    "function q13(x, y) { { const r = 'abc'.foo?.(y)?.concat(x).trim?.(); return r; } }",
+    "function q14(x) { return 'abc'.concat?.(x).concat(1..toString?.(2).trim()); }",
+    "function q15(x) { return (0, 'abc').foo?.(x).concat(x); }",
+    "function q16(x) { return undefined?.[x]?.(x).trim().concat('a'.b?.(x).trim()); }",
+];
